@@ -44,7 +44,7 @@ def gen_assign(rng):
     ms = gen_system(rng)
     total = sum(nres_of(m) for m in ms if m['selected'])
     sel = [nres_of(m) for m in ms if m['selected']]
-    mode = rng.choice(['total', 'total', 'one', 'single', 'off', 'empty', 'rand'])
+    mode = rng.choice(['total', 'total', 'one', 'single', 'off', 'empty', 'rand', 'mean', 'mean', 'other'])
     if mode == 'total':
         n = total
     elif mode == 'one':
@@ -55,6 +55,15 @@ def gen_assign(rng):
         n = max(0, total + rng.choice([-1, 1]))
     elif mode == 'empty':
         n = 0
+    elif mode == 'mean':
+        # the length of one molecule only when all selected molecules have it: here the mean length of molecules of
+        # different lengths (made to divide), which the per-molecule case must not accept
+        if len(sel) >= 2 and len(set(sel)) > 1 and total % len(sel) == 0:
+            n = total // len(sel)
+        else:
+            n = sel[-1] if sel else 2
+    elif mode == 'other':
+        n = rng.choice(sel) if sel else 3          # the length of some selected molecule, not necessarily the first
     else:
         n = rng.randint(0, 8)
     return {'kind': 'assign', 'ms': ms, 'seq': [rng.randint(1, 9) * 10 + i for i in range(n)]}
